@@ -5,6 +5,7 @@ use serde_json::{json, Value};
 use std::env;
 use std::fs;
 
+mod client;
 mod writer;
 
 fn main() {
@@ -43,6 +44,7 @@ fn main() {
         let kind = sc["kind"].as_str().unwrap_or("");
         let out = match kind {
             "writer" => writer::replay(&sc),
+            "client" => client::replay(&sc),
             _ => json!({"error": format!("unknown scenario kind {}", kind)}),
         };
         outs.push(out);
